@@ -91,6 +91,13 @@ theorem mkCell_ok (r : Region) (ks : List Nat) (cell : List Rat) (bc : String) (
     simp [this]
   rw [hdiv]
   simp only [Bool.not_true, Bool.false_eq_true, if_false]
+  have hcnt : allLt r.ndim (fun a => decide (1 ≤ (roundHalfEven (r.edge a / cell.getD a 0)).toNat)) = true := by
+    rw [allLt_iff]
+    intro a ha
+    rw [count_of_edge _ _ _ (hcpos a ha).ne' (hedge a ha)]
+    exact decide_eq_true (h a ha).1
+  rw [hcnt]
+  simp only [Bool.not_true, Bool.false_eq_true, if_false]
   rw [hbc]
   simp only [Bool.not_true, Bool.false_eq_true, if_false]
   congr 2
